@@ -48,6 +48,7 @@ pub fn engines() -> Vec<Engine> {
         Engine { name: "likely_miri", prop: "C06", run: likelyeng::run_likely_miri, replay_bytes: None, replay_json: Some(likelyeng::c07_replay) },
         Engine { name: "c09", prop: "C09", run: parse::run_c09, replay_bytes: Some(parse::c09_check_masks), replay_json: Some(c09_replay_json) },
         Engine { name: "c10", prop: "C10", run: hist::run_c10, replay_bytes: None, replay_json: Some(hist::c10_replay) },
+        Engine { name: "c10_miri", prop: "C10", run: hist::run_c10_miri, replay_bytes: None, replay_json: Some(hist::c10_replay) },
         Engine { name: "c11", prop: "C11", run: rel::run_c11, replay_bytes: None, replay_json: Some(rel::c11_replay) },
         Engine { name: "c12", prop: "C12", run: rel::run_c12, replay_bytes: None, replay_json: Some(rel::c12_replay) },
         Engine { name: "c13", prop: "C13", run: parse::run_c13, replay_bytes: Some(parse::c13_check), replay_json: None },
